@@ -107,6 +107,7 @@ type interpreter struct {
 	memfs              *memFS
 	tickers            []chan value
 	hraftIndex         int
+	hraftSink          *hraftNode // node whose Snapshot() is being persisted
 	freePort           int
 	spinLoads          map[*value]int
 	spinThread         *thread
